@@ -35,8 +35,8 @@ Proof.
       simpl. f_equal. apply IH; [unfold Wf_nat.ltof; simpl; lia|assumption].
 Qed.
 
-Notation wf_s := (wf tab4 is_tag kof kpfx).
-Notation wf_item_s := (wf_item tab4 is_tag kof kpfx).
+Notation wf_s := (wf tab4 is_tag kof kpfx vis).
+Notation wf_item_s := (wf_item tab4 is_tag kof kpfx vis).
 
 Lemma nodupb_NoDup l : nodupb l = true -> NoDup l.
 Proof.
@@ -53,7 +53,8 @@ Proof.
   unfold wfb. intros H. apply andb_prop in H as [H1 H2]. split.
   - apply Forall_forall. intros it Hit. rewrite forallb_forall in H1. specialize (H1 it Hit).
     destruct it as [l|o c]; simpl in *.
-    + apply andb_prop in H1 as [Ha Hb]. apply negb_true_iff in Ha, Hb. split; assumption.
+    + apply andb_prop in H1 as [Ha Hb]. apply negb_true_iff in Hb. split; [|assumption].
+      intros x Hx. rewrite forallb_forall in Ha. specialize (Ha x Hx). apply negb_true_iff in Ha. exact Ha.
     + repeat (apply andb_prop in H1 as [H1 ?]).
       repeat match goal with H : String.eqb _ _ = true |- _ => apply String.eqb_eq in H end.
       repeat split; assumption.
@@ -61,9 +62,6 @@ Proof.
 Qed.
 
 (* ---------------------------------------------------------------- shape of the lines written to disk *)
-Lemma canon_cons c s : s <> "" -> canonical (String c s) = negb (Ascii.eqb c LF) && canonical s.
-Proof. destruct s; [contradiction|reflexivity]. Qed.
-
 Lemma tab4_nonempty l : l <> "" -> tab4 l <> "".
 Proof. destruct l as [|c l]; [contradiction|]. simpl. destruct (Ascii.eqb c TAB); discriminate. Qed.
 
@@ -112,8 +110,6 @@ Proof.
   rewrite concat_lines_cons, no_char_append, H1, IH by assumption. reflexivity.
 Qed.
 
-Definition last_ok (l : string) : bool := canonical l || (no_char LF l && negb (String.eqb l "")).
-
 Lemma lines_shape_app a b : forallb canonical a = true -> lines_shape b = true -> b <> [] ->
   lines_shape (a ++ b) = true.
 Proof.
@@ -143,7 +139,8 @@ Proof.
     simpl. apply orb_true_r.
 Qed.
 
-Notation disk_s := (disk tab4 kof).
+Notation disk_s := (disk tab4 kof vis).
+Notation written_s := (written_items tab4 kof).
 
 Definition block_ok (B : list string) : bool :=
   forallb (fun l => negb (is_tag l) && canonical l && no_char CR l) B.
@@ -155,74 +152,102 @@ Proof.
   rewrite is_tag_tab4, H1, canonical_tab4, H2, no_cr_tab4 by assumption. reflexivity.
 Qed.
 
-Lemma flatten_nil_inv (its : list (item string)) : flatten its = [] -> its = [].
-Proof. destruct its as [|[l|o c] r]; simpl; [reflexivity|discriminate|discriminate]. Qed.
+Lemma disk_nil_inv' U (its : list (item string)) : items_okb its = true -> disk_s U its = [] -> its = [] \/ True.
+Proof. intros; right; exact Logic.I. Qed.
 
-Lemma disk_nil_inv U (its : list (item string)) : disk_s U its = [] -> its = [].
-Proof. destruct its as [|[l|o c] r]; simpl; [reflexivity|discriminate|discriminate]. Qed.
+(* the written elements and the lines they are read back as hold the same bytes *)
+Lemma concat_written_disk U its : concat_lines (written_s U its) = concat_lines (disk_s U its).
+Proof.
+  unfold written_items, disk. induction its as [|[l|o c] its IH]; [reflexivity| |].
+  - cbn [flat_map]. rewrite !concat_lines_app, IH. f_equal. unfold vis. rewrite concat_split.
+    rewrite concat_lines_cons. unfold concat_lines. simpl. apply append_empty_r.
+  - cbn [flat_map]. rewrite !concat_lines_app, IH. reflexivity.
+Qed.
+
+Lemma disk_cons_plain U l r : disk_s U (Plain l :: r) = vis l ++ disk_s U r.
+Proof. reflexivity. Qed.
+
+Lemma disk_cons_pair U o c r : disk_s U (Pair o c :: r) = ((tab4 o :: U (kof o)) ++ [tab4 c]) ++ disk_s U r.
+Proof. unfold disk. cbn [flat_map]. rewrite app_comm_cons. reflexivity. Qed.
+
+(* every line of the re-read content is canonical, except possibly the very last one *)
+Lemma forallb_canonical_chunk l : (String.eqb l "" || ends_lf l) = true -> forallb canonical (vis l) = true.
+Proof.
+  intros H. unfold vis. apply orb_prop in H as [H|H].
+  - apply String.eqb_eq in H. subst. reflexivity.
+  - apply split_canonical. rewrite ends_lf_tab4. assumption.
+Qed.
+
+Lemma pair_lines_last U o c :
+  (forall k, forallb canonical (U k) = true) -> canonical o = true -> last_ok c = true ->
+  lines_shape ((tab4 o :: U (kof o)) ++ [tab4 c]) = true.
+Proof.
+  intros HU Ho Hc. apply lines_shape_app; [| |discriminate].
+  - cbn [forallb]. rewrite canonical_tab4, Ho, HU. reflexivity.
+  - rewrite lines_shape_single. apply last_ok_tab4; assumption.
+Qed.
+
+Lemma pair_lines_canonical U o c :
+  (forall k, forallb canonical (U k) = true) -> canonical o = true -> canonical c = true ->
+  forallb canonical ((tab4 o :: U (kof o)) ++ [tab4 c]) = true.
+Proof.
+  intros HU Ho Hc. rewrite forallb_app. cbn [forallb]. rewrite !canonical_tab4, Ho, Hc, HU. reflexivity.
+Qed.
 
 Lemma lines_shape_disk U its :
   (forall k, forallb canonical (U k) = true) ->
-  lines_shape (flatten its) = true -> lines_shape (disk_s U its) = true.
+  items_okb its = true -> lines_shape (disk_s U its) = true.
 Proof.
   intros HU. induction its as [|it r IH]; [reflexivity|]. intros H.
   destruct r as [|it2 r2].
-  - (* last item *)
-    destruct it as [l|o c].
-    + change (flatten [Plain l]) with [l] in H. change (disk_s U [Plain l]) with [tab4 l].
-      cbn [lines_shape] in H |- *. fold (last_ok l) in H. fold (last_ok (tab4 l)).
-      apply last_ok_tab4; assumption.
-    + change (flatten [Pair o c]) with [o; c] in H.
-      apply lines_shape_cons_inv in H as [H1 H2]. cbn [lines_shape] in H2. fold (last_ok c) in H2.
-      replace (disk_s U [Pair o c]) with ((tab4 o :: U (kof o)) ++ [tab4 c])
-        by (unfold disk; simpl; rewrite app_nil_r; reflexivity).
-      apply lines_shape_app; [| |discriminate].
-      * cbn [forallb]. rewrite canonical_tab4, H1, HU. reflexivity.
-      * cbn [lines_shape]. fold (last_ok (tab4 c)). apply last_ok_tab4; assumption.
-  - assert (Hne : disk_s U (it2 :: r2) <> []) by (intros E; apply disk_nil_inv in E; discriminate).
-    assert (Hnf : flatten (it2 :: r2) <> []) by (intros E; apply flatten_nil_inv in E; discriminate).
-    destruct it as [l|o c].
-    + change (flatten (Plain l :: it2 :: r2)) with (l :: flatten (it2 :: r2)) in H.
-      destruct (flatten (it2 :: r2)) as [|y ys] eqn:Ef; [contradiction|].
-      apply lines_shape_cons_inv in H as [H1 H2].
-      change (disk_s U (Plain l :: it2 :: r2)) with ([tab4 l] ++ disk_s U (it2 :: r2)).
-      apply lines_shape_app; [simpl; rewrite canonical_tab4, H1; reflexivity|apply IH; assumption|assumption].
-    + change (flatten (Pair o c :: it2 :: r2)) with (o :: c :: flatten (it2 :: r2)) in H.
-      apply lines_shape_cons_inv in H as [H1 H2].
-      destruct (flatten (it2 :: r2)) as [|y ys] eqn:Ef; [contradiction|].
-      apply lines_shape_cons_inv in H2 as [H2 H3].
-      replace (disk_s U (Pair o c :: it2 :: r2)) with ((tab4 o :: U (kof o) ++ [tab4 c]) ++ disk_s U (it2 :: r2)).
-      2:{ unfold disk. simpl. rewrite <- app_assoc. reflexivity. }
-      apply lines_shape_app; [|apply IH; assumption|assumption].
-      simpl. rewrite canonical_tab4, H1. simpl. rewrite forallb_app, HU. simpl.
-      rewrite canonical_tab4, H2. reflexivity.
+  - destruct it as [l|o c].
+    + rewrite disk_cons_plain. cbn [disk flat_map]. rewrite app_nil_r. unfold vis. apply split_shape.
+    + cbn [items_okb] in H. repeat (apply andb_prop in H as [H ?]).
+      rewrite disk_cons_pair. cbn [disk flat_map]. rewrite app_nil_r.
+      apply pair_lines_last; assumption.
+  - assert (Hr : items_okb (it2 :: r2) = true).
+    { destruct it as [l|o c]; cbn [items_okb] in H; repeat (apply andb_prop in H as [H ?]); assumption. }
+    specialize (IH Hr).
+    destruct it as [l|o c]; cbn [items_okb] in H; repeat (apply andb_prop in H as [H ?]).
+    + rewrite disk_cons_plain.
+      destruct (disk_s U (it2 :: r2)) as [|y ys] eqn:Ed.
+      * rewrite app_nil_r. unfold vis. apply split_shape.
+      * apply lines_shape_app; [apply forallb_canonical_chunk; assumption|assumption|discriminate].
+    + rewrite disk_cons_pair.
+      destruct (disk_s U (it2 :: r2)) as [|y ys] eqn:Ed.
+      * rewrite app_nil_r. apply pair_lines_last; [assumption|assumption|].
+        unfold last_ok. match goal with Hc : canonical c = true |- _ => rewrite Hc end. reflexivity.
+      * apply lines_shape_app; [apply pair_lines_canonical; assumption|assumption|discriminate].
+Qed.
+
+Lemma items_okb_nocr its : items_okb its = true ->
+  forallb (fun it => match it with Plain l => no_char CR l | Pair o c => no_char CR o && no_char CR c end) its = true.
+Proof.
+  induction its as [|it r IH]; [reflexivity|]. intros H. destruct r as [|it2 r2].
+  - destruct it as [l|o c]; cbn [items_okb] in H; cbn [forallb].
+    + rewrite H. reflexivity.
+    + repeat (apply andb_prop in H as [H ?]).
+      repeat match goal with Hx : _ = true |- _ => rewrite Hx; clear Hx end. reflexivity.
+  - destruct it as [l|o c]; cbn [items_okb] in H; repeat (apply andb_prop in H as [H ?]).
+    + change (forallb _ (Plain l :: it2 :: r2)) with (no_char CR l && forallb (fun it => match it with Plain l => no_char CR l | Pair o c => no_char CR o && no_char CR c end) (it2 :: r2)).
+      rewrite IH by assumption. rewrite H. reflexivity.
+    + change (forallb _ (Pair o c :: it2 :: r2)) with ((no_char CR o && no_char CR c) && forallb (fun it => match it with Plain l => no_char CR l | Pair o c => no_char CR o && no_char CR c end) (it2 :: r2)).
+      rewrite IH by assumption.
+      repeat match goal with Hx : no_char CR _ = true |- _ => rewrite Hx; clear Hx end. reflexivity.
 Qed.
 
 Lemma nocr_disk U its :
   (forall k, forallb (no_char CR) (U k) = true) ->
-  forallb (no_char CR) (flatten its) = true -> forallb (no_char CR) (disk_s U its) = true.
+  items_okb its = true -> forallb (no_char CR) (disk_s U its) = true.
 Proof.
-  intros HU. induction its as [|[l|o c] r IH]; [reflexivity| |]; simpl; intros H.
-  - apply andb_prop in H as [H1 H2]. rewrite no_cr_tab4, IH by assumption. reflexivity.
-  - apply andb_prop in H as [H1 H2]. apply andb_prop in H2 as [H2 H3].
-    rewrite no_cr_tab4 by assumption. simpl. rewrite forallb_app, forallb_app, HU. simpl.
-    rewrite no_cr_tab4, IH by assumption. reflexivity.
-Qed.
-
-(* the lines of a fresh file as the boolean check of Model/Preserve.v sees them *)
-Lemma lines_okb_spec ls : lines_okb ls = true ->
-  lines_shape ls = true /\ forallb (no_char CR) ls = true.
-Proof.
-  induction ls as [|l r IH]; [split; reflexivity|].
-  destruct r as [|l2 r2].
-  - simpl. unfold line_okb. intros H. apply orb_prop in H as [H|H].
-    + apply andb_prop in H as [H1 H2]. rewrite H1, H2. split; reflexivity.
-    + apply andb_prop in H as [H H3]. apply andb_prop in H as [H1 H2]. rewrite H1, H2, H3.
-      split; [apply orb_true_r|reflexivity].
-  - intros H. change (line_okb l && lines_okb (l2 :: r2) = true) in H. apply andb_prop in H as [H1 H2].
-    unfold line_okb in H1. apply andb_prop in H1 as [Ha Hb]. destruct (IH H2) as [I1 I2]. split.
-    + change (canonical l && lines_shape (l2 :: r2) = true). rewrite Ha, I1. reflexivity.
-    + change (no_char CR l && forallb (no_char CR) (l2 :: r2) = true). rewrite Hb, I2. reflexivity.
+  intros HU H. apply items_okb_nocr in H. induction its as [|[l|o c] r IH]; [reflexivity| |]; cbn [forallb] in H;
+    apply andb_prop in H as [H1 H2].
+  - rewrite disk_cons_plain. rewrite forallb_app, IH by assumption.
+    unfold vis. rewrite split_nochar by (apply no_cr_tab4; assumption). reflexivity.
+  - apply andb_prop in H1 as [Ho Hc].
+    rewrite disk_cons_pair.
+    rewrite !forallb_app, IH by assumption. cbn [forallb]. rewrite !no_cr_tab4 by assumption.
+    rewrite HU. reflexivity.
 Qed.
 
 (* ---------------------------------------------------------------- per-file, bytes to bytes *)
@@ -231,15 +256,15 @@ Definition regen_file (path : string) (fresh : list string) (content : string) :
   let '(out, lost) := regen1 path fresh (read_lines content) in (concat_lines out, lost).
 
 Definition on_disk (u : string -> list string) (its : list (item string)) : string :=
-  concat_lines (disk_s (fun k => map tab4 (u k)) its).
+  concat_lines (written_s (fun k => map tab4 (u k)) its).
 
 Lemma read_on_disk (u : string -> list string) its :
-  lines_okb (flatten its) = true -> (forall k, block_ok (u k) = true) ->
+  items_okb its = true -> (forall k, block_ok (u k) = true) ->
   read_lines (on_disk u its) = disk_s (fun k => map tab4 (u k)) its.
 Proof.
-  intros Hl Hu. apply lines_okb_spec in Hl as [Hs Hc].
+  intros Hl Hu.
   assert (HuT : forall k, block_ok (map tab4 (u k)) = true) by (intros k; apply block_ok_tab4, Hu).
-  unfold read_lines, on_disk.
+  unfold read_lines, on_disk. rewrite concat_written_disk.
   rewrite universal_newlines_nocr.
   - apply split_concat. apply lines_shape_disk; [|assumption].
     intros k. specialize (HuT k). unfold block_ok in HuT. rewrite forallb_forall in *.
@@ -262,7 +287,7 @@ Qed.
 
 (* C02 at the level of bytes: old content = model [its] with user blocks [u]; new fresh file [fresh'] *)
 Theorem regen_file_evolution path (u : string -> list string) its fresh' its' :
-  wfb its = true -> lines_okb (flatten its) = true -> (forall k, block_ok (u k) = true) ->
+  wfb its = true -> items_okb its = true -> (forall k, block_ok (u k) = true) ->
   parse_items fresh' = Some its' -> Forall (wf_fresh_item kof kpfx) its' ->
   fst (regen_file path fresh' (on_disk u its))
   = on_disk (fun k => if memk String.eqb k (pair_keys kof its) then u k else []) its'.
@@ -272,15 +297,15 @@ Proof.
   apply parse_items_flatten in Hp. subst fresh'.
   destruct (user_ok_blocks u Hu) as [Huo HT].
   unfold regen1.
-  rewrite (regen_evolution String.eqb eqb_spec_str tab4 is_tag kof sub_of kpfx nl nl (nl path) (nl lost_sep)
+  rewrite (regen_evolution String.eqb eqb_spec_str tab4 is_tag kof sub_of kpfx vis nl nl (nl path) (nl lost_sep)
              (fun k => map tab4 (u k)) its its' "" (wfb_wf its Hwf) Huo Hwf' HT).
-  simpl fst. unfold on_disk. f_equal. apply disk_ext. intros k _.
+  simpl fst. unfold on_disk. f_equal. apply written_ext. intros k _.
   destruct (memk String.eqb k (pair_keys kof its)); reflexivity.
 Qed.
 
 (* C01 at the level of bytes *)
 Theorem regen_file_fixed_point path (u : string -> list string) fresh its :
-  parse_items fresh = Some its -> wfb its = true -> lines_okb fresh = true ->
+  parse_items fresh = Some its -> wfb its = true -> items_okb its = true ->
   (forall k, block_ok (u k) = true) ->
   regen_file path fresh (on_disk u its) = (on_disk u its, []).
 Proof.
@@ -289,7 +314,7 @@ Proof.
   rewrite (read_on_disk u its Hl Hu).
   destruct (user_ok_blocks u Hu) as [Huo HT].
   unfold regen1.
-  rewrite (regen_fixed_point String.eqb eqb_spec_str tab4 is_tag kof sub_of kpfx nl nl (nl path) (nl lost_sep)
+  rewrite (regen_fixed_point String.eqb eqb_spec_str tab4 is_tag kof sub_of kpfx vis nl nl (nl path) (nl lost_sep)
              (fun k => map tab4 (u k)) its "" (wfb_wf its Hwf) Huo HT).
   reflexivity.
 Qed.
